@@ -816,10 +816,25 @@ func genC17(r *Rng, e *Emitter, n int) {
 			}
 			var calls []*c17Case
 			var args [][]any
+			if r.chance(1, 2) {
+				c17SetSRIDs(g, r) // the geometry, and each member of a collection, carries its own SRID
+			}
 			for _, c := range geomCases {
 				if c.accept(g) && r.chance(3, 4) {
 					calls = append(calls, c)
 					args = append(args, []any{g})
+				}
+			}
+			// the members of a collection are geometries in their own right: calls on them run at the
+			// same time as calls on the collection that holds them
+			if gc, ok := g.(*geom.GeometryCollection); ok {
+				for _, m := range gc.Geoms() {
+					for _, c := range geomCases {
+						if c.accept(m) && r.chance(1, 4) {
+							calls = append(calls, c)
+							args = append(args, []any{m})
+						}
+					}
 				}
 			}
 			if len(calls) == 0 {
@@ -830,6 +845,32 @@ func genC17(r *Rng, e *Emitter, n int) {
 			c := ownCases[r.Intn(len(ownCases))]
 			a := c.gen(r)
 			emitBatch("same", []*c17Case{c}, [][]any{a})
+		}
+	}
+}
+
+// c17SetSRIDs gives g, and recursively every member of a collection, a non-zero SRID of its own.
+func c17SetSRIDs(g geom.T, r *Rng) {
+	srid := 1000 + r.Intn(9000)
+	switch g := g.(type) {
+	case *geom.Point:
+		g.SetSRID(srid)
+	case *geom.LineString:
+		g.SetSRID(srid)
+	case *geom.LinearRing:
+		g.SetSRID(srid)
+	case *geom.Polygon:
+		g.SetSRID(srid)
+	case *geom.MultiPoint:
+		g.SetSRID(srid)
+	case *geom.MultiLineString:
+		g.SetSRID(srid)
+	case *geom.MultiPolygon:
+		g.SetSRID(srid)
+	case *geom.GeometryCollection:
+		g.SetSRID(srid)
+		for _, m := range g.Geoms() {
+			c17SetSRIDs(m, r)
 		}
 	}
 }
